@@ -124,8 +124,14 @@ impl Driver {
                 let t = String::from_utf8(unhex(it.next().unwrap())).unwrap();
                 let thr = f32::from_bits(it.next().unwrap().parse::<u32>().unwrap());
                 let langs = parse_langs(it.next().unwrap());
+                let single = if langs.len() == 1 && format!("{:?}", langs[0]) != "Unknown" { Some(langs[0]) } else { None };
                 match hooks::coherence_ratio(t.clone(), Some(thr), Some(langs)) {
                     Ok(c) => {
+                        if let Some(l0) = single {
+                            if c.iter().any(|(l, _)| *l != l0) {
+                                self.contract_violations.push(format!("CohInclude include=[{:?}] answer={} text={}", l0, crate::sig::coh_str(&c), short(t.as_bytes(), 64)));
+                            }
+                        }
                         for (_, s) in &c {
                             if s.is_nan() || *s < 0.0 || *s > 1.0 {
                                 self.contract_violations
@@ -141,7 +147,20 @@ impl Driver {
                 let a = it.next().unwrap();
                 let lists: Vec<Vec<(&'static Language, f32)>> =
                     if a == "-" { vec![] } else { a.split(';').map(parse_coh).collect() };
-                crate::sig::coh_str(&hooks::merge_coherence_ratios(&lists))
+                let m = hooks::merge_coherence_ratios(&lists);
+                for i in 0..m.len() {
+                    if m[..i].iter().any(|(l, _)| *l == m[i].0) {
+                        self.contract_violations.push(format!("MergeNoDup answer={}", crate::sig::coh_str(&m)));
+                    }
+                    if !lists.iter().any(|l| l.iter().any(|(x, _)| *x == m[i].0)) {
+                        self.contract_violations.push(format!("MergeSub answer={}", crate::sig::coh_str(&m)));
+                    }
+                    let s = m[i].1;
+                    if s.is_nan() || s < 0.0 || s > 1.0 {
+                        self.contract_violations.push(format!("MergeOK score={}", s));
+                    }
+                }
+                crate::sig::coh_str(&m)
             }
             "SBL" => {
                 let enc = String::from_utf8(unhex(it.next().unwrap())).unwrap();
